@@ -492,10 +492,12 @@ func (w *world) actPart() {
 	}
 	k := id{c, rapid.SampledFrom(free).Draw(t, "part")}
 	if w.chainTomb[c] && k.i == partMiddle && ev.IsOpen("C44", fpLatePart) {
+		w.rec.Known(fpLatePart) // records the occurrence: the driver prints the KNOWN-FINDING line
 		w.rec.Excluded(1)
 		t.Skip("known finding: " + fpLatePart)
 	}
 	if w.chainTomb[c] && k.i == partLast && ev.IsOpen("C44", fpStuckParent) {
+		w.rec.Known(fpStuckParent) // records the occurrence: the driver prints the KNOWN-FINDING line
 		w.rec.Excluded(1)
 		t.Skip("known finding: " + fpStuckParent)
 	}
@@ -652,6 +654,7 @@ func (w *world) actFlush(racing bool) {
 	}
 	if racing {
 		if ev.IsOpen("C44", fpFlushRace) {
+			w.rec.Known(fpFlushRace) // records the occurrence: the driver prints the KNOWN-FINDING line
 			w.rec.Excluded(1)
 			w.t.Skip("known finding: " + fpFlushRace)
 		}
@@ -990,6 +993,10 @@ func run(t *rapid.T, rec *ev.Recorder, engineMode bool) {
 	w.logf("FINAL epoch -> %d, GC passes until quiescent", w.epoch)
 	roundsA = w.quiesce("phase A (fixed epoch)", w.gcPass)
 	stalled = w.leftovers()
+	stallDebug := ""
+	if len(stalled) > 0 {
+		stallDebug = w.debugGarbage()
+	}
 	// phase B: epochs keep advancing
 	roundsB = w.quiesce("phase B (advancing epochs)", func() {
 		w.epoch++
@@ -1040,7 +1047,7 @@ func run(t *rapid.T, rec *ev.Recorder, engineMode bool) {
 	}
 	if len(stalled) > 0 {
 		labels = append(labels, "stalled-at-fixed-epoch")
-		w.fail("GC stalled at a fixed epoch: after %d passes at epoch %d (3 without change) removable objects were left and were only collected after NEW epochs arrived:\n  %s", roundsA, maxExp+1, strings.Join(stalled, "\n  "))
+		w.fail("GC stalled at a fixed epoch: after %d passes at epoch %d (3 without change) removable objects were left and were only collected after NEW epochs arrived:\n  %s%s", roundsA, maxExp+1, strings.Join(stalled, "\n  "), stallDebug)
 	}
 	if err := w.st.close(); err != nil {
 		w.fail("close: %v", err)
